@@ -167,8 +167,9 @@ defjvp(
 )
 defjvp(
     anp.linspace,
-    lambda g, ans, start, stop, *args, **kwargs: anp.linspace(g, 0, *args, **kwargs),
-    lambda g, ans, start, stop, *args, **kwargs: anp.linspace(0, g, *args, **kwargs),
+    # zeros shaped like the other end point: the two end points broadcast against each other
+    lambda g, ans, start, stop, *args, **kwargs: anp.linspace(g, anp.zeros(anp.shape(stop)), *args, **kwargs),
+    lambda g, ans, start, stop, *args, **kwargs: anp.linspace(anp.zeros(anp.shape(start)), g, *args, **kwargs),
 )
 
 
